@@ -318,6 +318,16 @@ class GDivider(Step):
         return {}
 
 
+class GCount(Step):
+    """runs once per phase: c += 1 (a step that runs twice in a phase is visible, unlike the idempotent double/succ)"""
+
+    def ports_schema(self):
+        return {'v': {'c': {'_default': 0, '_updater': 'accumulate'}}}
+
+    def next_update(self, timestep, states):
+        return {'v': {'c': 1}}
+
+
 class GSpawner(Process):
     """adds agents at scripted ticks through _generate; optionally deletes one later"""
     defaults = {'timestep': 1.0, 'script': {}}
@@ -349,7 +359,8 @@ def agent_spec(key, style):
     topo = {'grow': {'v': ('v',)}, 'double': {'v': ('v',)}, 'succ': {'v': ('v',)}}
     d = {'key': key, 'processes': {'grow': GGrow()}, 'topology': topo, 'initial_state': {}}
     if style == 'legacy-steps':
-        d['steps'] = {'double': GDouble(), 'succ': GSucc()}
+        d['steps'] = {'double': GDouble(), 'succ': GSucc(), 'count': GCount()}
+        d['topology'] = dict(topo, count={'v': ('v',)})
     elif style == 'legacy-in-processes':
         d['processes'].update({'double': GDouble(), 'succ': GSucc()})
     elif style == 'legacy-reaper':
@@ -410,6 +421,7 @@ def check_generated(case):
         styles = {'a0': case['a0']}
         born = {'a0': 0}
         prev_y = {}
+        prev_c = {}
         last_x = {}
         for tick in range(1, case['ticks'] + 1):
             for op in script.get(tick, []):
@@ -457,6 +469,13 @@ def check_generated(case):
                     fails.append('tick %d: agent %s (%s): z=%r but y=%r: `succ` must run after `double` in every phase'
                                  % (tick, name, style, z, y))
                 prev_y[name] = y
+                if 'c' in v:
+                    if name in prev_c and v['c'] != prev_c[name] + 1:
+                        fails.append('tick %d: agent %s: its counting step ran %d times in this phase (c %r -> %r)'
+                                     % (tick, name, v['c'] - prev_c[name], prev_c[name], v['c']))
+                    prev_c[name] = v['c']
+            for gone in [n for n in prev_c if n not in styles]:
+                prev_c.pop(gone)
         if comp is not None and not fails:
             def strip(d):
                 if isinstance(d, dict):
@@ -559,6 +578,8 @@ def main():
                for st in ('legacy-steps', 'legacy-reaper', 'flow-chain')]
     gcases += [{'a0': 'legacy-steps', 'script': {'1': [['generate', 'a1', 'flow-chain']]}, 'ticks': 4, 'via_composite': True},
                {'a0': 'legacy-in-processes', 'script': {'2': [['generate', 'a1', 'flow-layer']]}, 'ticks': 4, 'via_composite': True}]
+    gcases += [{'a0': 'legacy-steps', 'script': {'1': [['generate', 'a1', 'legacy-steps']], '2': [['delete', 'a1']], '3': [['generate', 'a1', 'legacy-steps']]}, 'ticks': 6},
+               {'a0': 'flow-chain', 'script': {'1': [['delete', 'a0']], '2': [['generate', 'a0', 'legacy-steps']]}, 'ticks': 5}]
     gcases += [{'a0': 'flow-divider', 'script': {}, 'ticks': 5}, {'a0': 'legacy-steps', 'script': {'1': [['generate', 'a1', 'flow-divider']]}, 'ticks': 6}]
     gcases += [gen_generated(rng) for _ in range(20 if a.tier == 'quick' else 400)]
     for gi, case in enumerate(gcases):
